@@ -48,6 +48,8 @@ type evCase struct {
 	genuine bool // two different same-kind votes of one validator in one (round,index) (must be accepted, once)
 	data    staking.EvidenceDoubleSignV5
 	copies  int
+	future  bool // the evidence is about the round of the block being built (not yet the parent's): it must wait one block
+	due     bool // a then-future evidence that reached its round in this block (already in the pool)
 }
 
 func run(c *kit.Ctx) {
@@ -100,6 +102,17 @@ func chain(c *kit.Ctx, id string, i int) {
 	a, b := run.A.Chain, run.B.Chain
 	frac := new(big.Int).SetUint64(w.YP.PenaltyFractionForDoubleSign)
 	sigParts := map[string]bool{}
+	var carry *evCase
+	var carryTarget common.Address
+	// validators slashed for a real equivocation: for the next blocks (the evidence is re-posted, other
+	// nodes' copies keep arriving) nothing may act on them again - the expulsion deadline is the witness
+	type watched struct {
+		addr   common.Address
+		expire uint64
+		until  uint64
+		what   string
+	}
+	var watch []watched
 	bad := false
 	viol := func(class, msg string, extra map[string]interface{}) {
 		c.Violation(class, msg, extra)
@@ -126,14 +139,39 @@ func chain(c *kit.Ctx, id string, i int) {
 		var comps []companion
 		var compBefore []snapVal
 		var postedDesc []string
-		if n >= 18 && !periodEnd && r.Intn(3) == 0 {
-			ec, target = makeEvidence(run, st, n-1, cb, r)
+		if carry != nil {
+			// the evidence about the then-future round has reached its round: THIS block must act on
+			// it (it is already in the proposer's pool), exactly like on a fresh one
+			ec, target = carry, carryTarget
+			carry = nil
+			if target == cb || periodEnd {
+				c.Count("future_round_evidence_due_not_judged", 1)
+				ec = nil
+			} else {
+				ec.future, ec.due, ec.copies = false, true, 0
+				offered = nil
+				before = snapshot(st, target)
+				c.Count("future_round_evidence_due", 1)
+				sigParts["future-round-due"] = true
+			}
+		} else if n >= 18 && !periodEnd && r.Intn(3) == 0 {
+			future := r.Intn(8) == 0 && (n+2)%run.Freq != 0
+			round := n - 1
+			if future {
+				round = n
+			}
+			ec, target = makeEvidence(run, st, round, cb, r, future)
+			if ec != nil && future {
+				ec.future = true
+				ec.name = "future-round-" + ec.name
+				ec.copies = 1 + r.Intn(2)
+			}
 			if ec != nil {
 				// an evidence block carries no transactions: nothing else can touch the accused
 				offered = nil
 				before = snapshot(st, target)
 				comps, compBefore = nil, nil
-				if ec.genuine && r.Intn(2) == 0 {
+				if ec.genuine && !ec.future && r.Intn(2) == 0 {
 					// further validators equivocated in the same round: several evidences are confirmed
 					// in ONE block; they reach the proposer's pool in arbitrary (gossip) order
 					comps = companions(run, st, n-1, cb, target, r)
@@ -206,6 +244,34 @@ func chain(c *kit.Ctx, id string, i int) {
 			return
 		}
 		c.Evals(1)
+		{
+			var keep []watched
+			for _, wv := range watch {
+				if n > wv.until || (ec != nil && (wv.addr == target)) {
+					continue
+				}
+				skip := false
+				for _, cp := range comps {
+					if cp.target == wv.addr {
+						skip = true
+					}
+				}
+				if skip {
+					continue
+				}
+				cur := snapshot(res.State, wv.addr)
+				c.Count("slashed_validators_watched_in_later_blocks", 1)
+				if cur.exists && cur.val.Expelled && cur.val.ExpelExpired != wv.expire {
+					viol("equivocation-acted-upon-again-in-a-later-block", fmt.Sprintf("block %d: %s was slashed and expelled until %d for %s; without any new evidence against it its expulsion now ends at %d (%s): the same equivocation was applied again", n, wv.addr.Hex()[:10], wv.expire, wv.what, cur.val.ExpelExpired, cur.asString), nil)
+					break
+				}
+				keep = append(keep, wv)
+			}
+			watch = keep
+			if bad {
+				break
+			}
+		}
 		if ec != nil {
 			after := snapshot(res.State, target)
 			penDelta := new(big.Int).Sub(res.State.GetBalance(w.YP.PenaltyTo), penBefore)
@@ -257,6 +323,15 @@ func chain(c *kit.Ctx, id string, i int) {
 				}
 			}
 			switch {
+			case ec.future:
+				// evidence.Round is the round of the block being built: it can only be judged one block later
+				if changed {
+					viol("future-round-evidence-applied-early", fmt.Sprintf("block %d: evidence about round %d (the block being built) already changed the accused: %s -> %s", n, ec.data.Round, before.asString, after.asString), ext)
+					break
+				}
+				c.Count("future_round_evidence_held_back", 1)
+				cp := *ec
+				carry, carryTarget = &cp, target
 			case compDropped:
 			case changed && len(res.Block.Header().SlashData) == 0:
 				// the builder acted on the evidence but left nothing for importers to replay (the
@@ -276,6 +351,9 @@ func chain(c *kit.Ctx, id string, i int) {
 					break
 				}
 				c.Count("genuine_slashed", 1)
+				if after.exists && after.val.Expelled {
+					watch = append(watch, watched{target, after.val.ExpelExpired, n + 4, fmt.Sprintf("%s in round %d", ec.name, ec.data.Round)})
+				}
 				// bounded: at most the configured fraction of token + pending withdrawals
 				base := new(big.Int).Add(before.val.Token, before.wsum)
 				bound := new(big.Int).Div(new(big.Int).Mul(base, frac), big.NewInt(100))
@@ -440,7 +518,7 @@ func companions(run *chaingen.Run, st *state.StateDB, round uint64, proposer, fi
 
 // makeEvidence picks an accused validator of the look-back set (never the proposer) and one
 // evidence construction.
-func makeEvidence(run *chaingen.Run, st *state.StateDB, round uint64, proposer common.Address, r *rand.Rand) (*evCase, common.Address) {
+func makeEvidence(run *chaingen.Run, st *state.StateDB, round uint64, proposer common.Address, r *rand.Rand, forceGenuine bool) (*evCase, common.Address) {
 	rd, err := run.A.Chain.LookBackVldReaderForRound(round, false)
 	if err != nil {
 		return nil, common.Address{}
@@ -496,7 +574,11 @@ func makeEvidence(run *chaingen.Run, st *state.StateDB, round uint64, proposer c
 	}
 	si := func(h common.Hash, sig []byte) *staking.SignInfo { return &staking.SignInfo{Hash: h, Sign: sig} }
 	var ec *evCase
-	switch r.Intn(16) {
+	kindSel := r.Intn(16)
+	if forceGenuine {
+		kindSel = 15
+	}
+	switch kindSel {
 	case 0:
 		ec = mk("one-honest-vote-duplicated", true, false, vtPrevote, si(A, sign(A, round, ri)), si(A, sign(A, round, ri)))
 	case 1:
